@@ -93,6 +93,7 @@ type Config struct {
 	OneShotSolvers []string
 	DumpDir        string
 	Tier           int
+	Progress       int
 }
 
 type Interp struct {
@@ -674,7 +675,7 @@ func (it *Interp) runPath(entry *ssa.Function, prefix []dec) {
 				outcome = "unsupported: " + e.msg
 				it.sh.res.mu.Lock()
 				if len(it.sh.res.Unsupported) < 20 {
-					it.sh.res.Unsupported = append(it.sh.res.Unsupported, e.msg+" at "+it.where()+"\n"+it.stackString())
+					it.sh.res.Unsupported = append(it.sh.res.Unsupported, e.msg+" at "+e.loc)
 				}
 				it.sh.res.mu.Unlock()
 			case *goPanic:
@@ -766,6 +767,25 @@ func Explore(prog *ssa.Program, entry *ssa.Function, cfg *Config, stubs map[stri
 	}
 	var wg sync.WaitGroup
 	var fmu sync.Mutex
+	stopProgress := make(chan struct{})
+	if cfg.Progress > 0 {
+		go func() {
+			tk := time.NewTicker(time.Duration(cfg.Progress) * time.Second)
+			defer tk.Stop()
+			for {
+				select {
+				case <-stopProgress:
+					return
+				case <-tk.C:
+					res.mu.Lock()
+					sh.mu.Lock()
+					fmt.Fprintf(os.Stderr, "  [%s %.0fs] paths=%d pruned=%d failures=%d asserts_ok=%d queue=%d active=%d\n", entry.Name(), time.Since(t0).Seconds(), res.Paths, res.Pruned, len(res.Failures), res.AssertsOK, len(sh.work), sh.active)
+					sh.mu.Unlock()
+					res.mu.Unlock()
+				}
+			}
+		}()
+	}
 	for w := 0; w < workers; w++ {
 		wg.Add(1)
 		go func(w int) {
@@ -848,6 +868,7 @@ func Explore(prog *ssa.Program, entry *ssa.Function, cfg *Config, stubs map[stri
 		}(w)
 	}
 	wg.Wait()
+	close(stopProgress)
 	sh.mu.Lock()
 	if len(sh.work) > 0 && res.Incomplete == "" && !(cfg.MaxFailures > 0 && len(res.Failures) >= cfg.MaxFailures) {
 		res.Incomplete = fmt.Sprintf("%d path prefixes left unexplored", len(sh.work))
